@@ -1811,4 +1811,43 @@ theorem detect_cols (fx : Fixes) (sp : Spec) (pol : Policy) (st1 : State) (c0 : 
   simp only [hl, bind, Except.bind, pure, Except.pure, hbo, hk, hfr, hpf]
 
 
+
+
+theorem hint_isHint (f : Fmt) (hh : f.hinted = true) (r : Ref) (vs : List PyVal) :
+    isHint (.dict r [f.hint] vs) = true := by
+  cases f <;> simp [Fmt.hinted] at hh <;> simp [isHint, Fmt.hint]
+
+/-- the hinted column-major answer -/
+def hintDict (sp : Spec) (R : Rows) : PyVal :=
+  .dict (.lrn 0) [sp.fmt.hint] [.list (.lrn 0) (R.map (fun r => hintVal sp r.1 r.2))]
+
+theorem renderCol_hinted (sp : Spec) (R : Rows) (hne : R ≠ []) (hh : sp.fmt.hinted = true) :
+    renderCol sp R = if sp.kw then mkSeq sp.tup [hintDict sp R, kwCols R] else hintDict sp R := by
+  rw [renderCol_eq sp R hne]
+  have hcols : colsOf sp R = [hintDict sp R] := by
+    obtain ⟨fmt, kw, lay, tup, ptup⟩ := sp
+    cases fmt <;> simp [Fmt.hinted] at hh <;> simp [colsOf, hintDict]
+  cases hk : sp.kw <;> simp [hh, hcols]
+
+theorem kwCols_keys (a0 : Answer) (as0 : List PyVal) (R' : Rows) :
+    ∃ vs, kwCols ((a0, as0) :: R') = .dict (.lrn 0) a0.kwKeys vs := ⟨_, rfl⟩
+
+theorem predFormat_hintRow (fx : Fixes) (sp : Spec) (a0 : Answer) (as0 : List PyVal) (hh : sp.fmt.hinted = true)
+    (h : firstRowOK fx sp a0 as0 = true) :
+    predFormat fx (.dict .tmp [sp.fmt.hint] [hintVal sp a0 as0]) (some as0) = .ok sp.pfmt := by
+  obtain ⟨fmt, kw, lay, tup, ptup⟩ := sp
+  simp only [firstRowOK, Bool.and_eq_true, decide_eq_true_eq] at h
+  obtain ⟨⟨hp, _⟩, hf⟩ := h
+  have hne : as0 ≠ [] := by intro h0; simp [h0] at hp
+  cases fmt <;> simp [Fmt.hinted] at hh
+  case dA => simpa [Spec.pfmt, Fmt.kind, Fmt.hinted, Fmt.hint, hintVal] using predFormat_dA_gen fx .tmp (a0.action as0) as0
+  case dAP =>
+    simpa [Spec.pfmt, Fmt.kind, Fmt.hinted, Fmt.hint, hintVal] using
+      predFormat_dAP_gen fx .tmp (mkSeq tup [a0.action as0, a0.p]) _ _ as0 (items_mkSeq _ _)
+  case dPM =>
+    have hlen : a0.pmf.length = as0.length := by simpa using hf
+    simpa [Spec.pfmt, Fmt.kind, Fmt.hinted, Fmt.hint, hintVal, mkPmf] using
+      predFormat_dPM_gen fx .tmp (mkSeq ptup a0.pmf) a0.pmf as0 (items_mkSeq _ _) hne hlen
+
+
 end Coba.C15
